@@ -1552,6 +1552,7 @@ func (a *Area) FromFeature(f *ingest.AreaFeature, s *encoding.StringTableBuilder
 				}
 			}
 		}
+		a.Polygons = polygons
 	}
 }
 
